@@ -211,6 +211,13 @@ func (b *builder) native(sel int64, p uint64) interface{} {
 
 const numNativeSel = 30
 
+func abs64(i int64) int64 {
+	if i < 0 {
+		return -i
+	}
+	return i
+}
+
 func (b *builder) quoteN(v *lisp.LVal, q int) *lisp.LVal {
 	for i := 0; i < q && i < 4; i++ {
 		v = lisp.Quote(v)
@@ -419,6 +426,25 @@ func (b *builder) build0(d VD) *lisp.LVal {
 		f := b.env.LoadString("c03-fun", funSnippets[i-1])
 		if f == nil || f.Type != lisp.LFun {
 			return lisp.Nil()
+		}
+		return f
+	case "lambda":
+		// a function value whose BODY forms are built from data: the body may
+		// hold (or be) a container that holds the function, so a cycle can run
+		// through an LFun.  I selects the formals.
+		b.hostile = true
+		formals := []*lisp.LVal{lisp.Formals(), lisp.Formals("x"), lisp.Formals(lisp.VarArgSymbol, "xs"), lisp.Formals("a", lisp.KeyArgSymbol, "k")}[int(abs64(d.I))%4]
+		body := make([]*lisp.LVal, len(d.L))
+		for i := range body {
+			body[i] = lisp.Nil()
+		}
+		f := b.env.Lambda(formals, body)
+		if f.Type != lisp.LFun {
+			return lisp.Nil()
+		}
+		b.reg(d, f)
+		for i := range d.L {
+			f.Cells[1+i] = b.build(d.L[i])
 		}
 		return f
 	case "tagged":
@@ -672,8 +698,12 @@ func genVDIn(t *rapid.T, g *genState, depth int) VD {
 		d.S = []byte(rapid.SampledFrom([]string{"user:c03-type", "string", "lisp:typedef", "list", "", "a:b:c"}).Draw(t, "tn"))
 		d.L = kids(1)
 	case 18:
-		if rapid.Bool().Draw(t, "td") {
+		if tk := rapid.IntRange(0, 3).Draw(t, "td"); tk == 0 {
 			d.K = "typedef"
+		} else if tk == 1 {
+			d.K = "lambda"
+			d.I = int64(rapid.IntRange(0, 3).Draw(t, "lf"))
+			d.L = kids(max(1, min(n, 2)))
 		} else {
 			d.K = "error"
 			d.S = []byte(rapid.SampledFrom([]string{"", "boom", "internal-panic", "condition"}).Draw(t, "c"))
